@@ -75,4 +75,10 @@ def compareLiteral (a b : Lit) : Option Int :=
       | _, _ => if a.lex = b.lex then some 0 else none   -- other datatypes: only equality is modelled
   | _, _ => none
 
+/-- the flag pySHACL computes from `compare_literal(a, b)` and a test on its sign; a `TypeError` is "no" -/
+def cmpFlag (a b : Lit) (test : Int → Bool) : Bool :=
+  match compareLiteral a b with
+  | some c => test c
+  | none => false
+
 end Pyshacl
